@@ -101,6 +101,11 @@ def mutants(design, classes=None):
             for ci, (pname, e) in enumerate(conns):
                 site = f"{mname}.{d[1]}.{pname}"
                 out.append(("missing_conn", site, replace_conn(design, mname, di, ci, drop=True), {"unconnected"}))
+                if d[0] == "inst" and ports[pname][0] == "sig":
+                    # ... and the dropped port is merely looked at afterwards (print(inst.p), a debugger, hasattr)
+                    dr = replace_conn(design, mname, di, ci, drop=True)
+                    dr["reads"] = [(mname, d[1], pname)]
+                    out.append(("missing_conn", site + "/read", dr, {"unconnected"}))
                 for path, sub in walk_expr(e):
                     k = sub[0]
                     if k == "rng":
